@@ -25,9 +25,11 @@ import (
 	"math/rand"
 	"os"
 	"strconv"
+	"sync/atomic"
 	"testing"
 
 	"github.com/btcsuite/btcd/btcutil/v2"
+	"github.com/lightningnetwork/lnd/fn/v2"
 	"github.com/lightningnetwork/lnd/graph/db/models"
 	"github.com/lightningnetwork/lnd/lnwire"
 )
@@ -87,10 +89,23 @@ func c09Verdict(le *LinkError) string {
 			return "TemporaryChannelFailure/HtlcExceedsMax -1"
 		case OutgoingFailureInsufficientBalance:
 			return "TemporaryChannelFailure/InsufficientBalance -1"
+		case OutgoingFailureLinkNotEligible:
+			return "TemporaryChannelFailure/LinkNotEligible -1"
+		case OutgoingFailureCircularRoute:
+			return "TemporaryChannelFailure/CircularRoute -1"
 		case nil:
 			return "TemporaryChannelFailure/none -1"
 		default:
 			return "TemporaryChannelFailure/other -1"
+		}
+	case *lnwire.FailUnknownNextPeer:
+		switch le.FailureDetail {
+		case OutgoingFailureLinkNotEligible:
+			return "UnknownNextPeer/LinkNotEligible -1"
+		case nil:
+			return "UnknownNextPeer -1"
+		default:
+			return "UnknownNextPeer/other -1"
 		}
 	case *lnwire.FailTemporaryNodeFailure:
 		return "TemporaryNodeFailure -1"
@@ -831,5 +846,345 @@ func TestVerifC09(t *testing.T) {
 			c.gridCase(l, k%4 == 3)
 		}
 	}
+	// level 2: the real Switch choosing among parallel links to one peer
+	nSw := 4000
+	if tier == "thorough" {
+		nSw = 80000
+	}
+	c.switchLevel(nSw)
+
 	t.Logf("C09 harness: %d cases, %d lines", c.n, c.lines)
+}
+
+// ---- level 2: Switch.handlePacketAdd / getLocalLink over parallel links ------
+//
+// Line formats:
+//   sw  mode req h in out ein eout ib ir n {elig min max base rate tld rej maxcltv bw}*n => chosen VERDICT payload
+//   swl req h out eout n {elig min max base rate tld rej maxcltv bw}*n                    => chosen VERDICT payload
+// mode 0 = channel-addressed forward (outgoingHop Left(scid), req = index of the
+// requested link among the peer's n links), mode 1 = node-addressed forward
+// (outgoingHop Right(pubkey), req = -1). n = 0: the requested scid is unknown to
+// the switch. chosen = index of the link whose handleSwitchPacket received the
+// add (sw) / that getLocalLink returned (swl), -1 if none.
+
+// c09swLink is a link registered in the real Switch: the switch plumbing
+// (ids, peer, mailbox, dust accessors) comes from the package's mockChannelLink,
+// while the forwarding decision is delegated to a REAL channelLink with its own
+// policy, cfg and channel bandwidth.
+type c09swLink struct {
+	*mockChannelLink
+	real *channelLink
+	elig bool
+	got  *htlcPacket
+}
+
+func (l *c09swLink) CheckHtlcForward(payHash [32]byte, in,
+	out lnwire.MilliSatoshi, ein, eout uint32, inb models.InboundFee,
+	h uint32, scid lnwire.ShortChannelID,
+	cr lnwire.CustomRecords) *LinkError {
+
+	return l.real.CheckHtlcForward(payHash, in, out, ein, eout, inb, h, scid, cr)
+}
+
+func (l *c09swLink) CheckHtlcTransit(payHash [32]byte, amt lnwire.MilliSatoshi,
+	timeout uint32, h uint32, cr lnwire.CustomRecords) *LinkError {
+
+	return l.real.CheckHtlcTransit(payHash, amt, timeout, h, cr)
+}
+
+func (l *c09swLink) EligibleToForward() bool       { return l.elig }
+func (l *c09swLink) Bandwidth() lnwire.MilliSatoshi { return l.real.Bandwidth() }
+func (l *c09swLink) UpdateForwardingPolicy(p models.ForwardingPolicy) {
+	l.real.UpdateForwardingPolicy(p)
+}
+func (l *c09swLink) handleSwitchPacket(pkt *htlcPacket) error {
+	l.got = pkt
+	return nil
+}
+
+type c09peer struct {
+	*mockPeer
+	pub [33]byte
+}
+
+func (p *c09peer) PubKey() [33]byte { return p.pub }
+
+type c09sw struct {
+	s     *Switch
+	in    *mockChannelLink
+	peers [][]*c09swLink
+	keys  [][33]byte
+	htlc  uint64
+}
+
+func (c *c09) newPeer(tag byte) *c09peer {
+	p := &c09peer{mockPeer: &mockPeer{
+		sentMsgs: make(chan lnwire.Message, 10),
+		quit:     make(chan struct{}),
+	}}
+	p.pub[0] = 2
+	p.pub[1] = tag
+	return p
+}
+
+func (c *c09) setupSwitch() *c09sw {
+	s, err := initSwitchWithTempDB(c.t, 840_000)
+	if err != nil {
+		c.t.Fatalf("initSwitch: %v", err)
+	}
+	if err := s.Start(); err != nil {
+		c.t.Fatalf("switch start: %v", err)
+	}
+	c.t.Cleanup(func() { _ = s.Stop() })
+	sw := &c09sw{s: s}
+
+	mk := func(id byte, scid uint64, peer *c09peer) *mockChannelLink {
+		var cid lnwire.ChannelID
+		cid[0] = id
+		return newMockChannelLink(
+			s, cid, lnwire.NewShortChanIDFromInt(scid),
+			lnwire.ShortChannelID{}, peer, true, false, false, false,
+		)
+	}
+	sw.in = mk(1, 1001, c.newPeer(1))
+	if err := s.AddLink(sw.in); err != nil {
+		c.t.Fatalf("AddLink(in): %v", err)
+	}
+	// failure packets are mailed back to the incoming link: drain them
+	go func() {
+		for {
+			select {
+			case <-sw.in.packets:
+			case <-s.quit:
+				return
+			}
+		}
+	}()
+
+	// peers with 3, 2 and 1 parallel channels, over real links of different
+	// channel sizes (hence different spendable bandwidth)
+	groups := [][]int{{2, 4, 5}, {3, 6}, {7}}
+	id := byte(10)
+	for g, idxs := range groups {
+		peer := c.newPeer(byte(10 + g))
+		var ls []*c09swLink
+		for _, k := range idxs {
+			l := &c09swLink{
+				mockChannelLink: mk(id, 2000+uint64(id), peer),
+				real:            c.links[k], elig: true,
+			}
+			id++
+			if err := s.AddLink(l); err != nil {
+				c.t.Fatalf("AddLink: %v", err)
+			}
+			ls = append(ls, l)
+		}
+		sw.peers = append(sw.peers, ls)
+		sw.keys = append(sw.keys, peer.pub)
+	}
+	return sw
+}
+
+// swPolicies derives one policy per parallel link from a common policy p0 and a
+// base point x that sits exactly on p0's thresholds: each link keeps p0
+// (accepts) or moves ONE threshold by one unit across the HTLC (rejects).
+func (c *c09) swPolicies(p0 c09pol, x c09in, n int) []c09pol {
+	ps := make([]c09pol, n)
+	gap := uint64(x.ein) - uint64(x.eout)
+	for k := range ps {
+		q := p0
+		switch c.rng.Intn(14) {
+		case 0:
+			q.base++ // fee now 1 msat short
+		case 1:
+			q.rate += 1 + uint64(c.rng.Intn(1000))
+		case 2:
+			q.min = x.out + 1
+		case 3:
+			q.max = x.out - 1
+			if q.max == 0 {
+				q.max = 1
+			}
+		case 4:
+			q.tld = uint32(gap + 1)
+		case 5:
+			if x.eout > x.h {
+				q.rej = x.eout - x.h // eout <= h + rej
+			}
+		case 6:
+			if x.eout > x.h+1 {
+				q.maxcltv = x.eout - x.h - 1
+			}
+		case 7:
+			if gap > 0 {
+				q.maxcltv = uint32(gap - 1)
+			}
+		case 8:
+			if q.base > 0 {
+				q.base-- // still accepts, different policy
+			}
+		case 9:
+			q.min = x.out // boundary, accepts
+			q.max = x.out
+		}
+		ps[k] = q
+	}
+	return ps
+}
+
+func (c *c09) swEval(sw *c09sw, local bool) {
+	g := c.pick64(0, 0, 0, 0, 0, 0, 1, 1, 1, 2)
+	links := sw.peers[g]
+	n := len(links)
+
+	// common base policy and an HTLC sitting exactly on its thresholds
+	minBw := uint64(math.MaxUint64)
+	for _, l := range links {
+		if bw := uint64(l.real.Bandwidth()); bw < minBw {
+			minBw = bw
+		}
+	}
+	p0 := c.randPolicy(minBw, false)
+	p0.max = c.pick64(0, 0, 400_000_000_000)
+	p0.maxcltv = c.pick32(2016, 2016, 2016, 144, uint32(100+c.rng.Intn(3000)))
+	ib := c.pickI(0, 0, -1, 1, -1000, 1000, int32(c.rng.Intn(20001)-10000))
+	ir := c.pickI(0, 0, -1, 1, -100, 100, -2500, 2500,
+		int32(c.rng.Intn(200_001)-100_000))
+	var x c09in
+	x.ib, x.ir = ib, ir
+	hi := c.pick64(minBw, minBw, minBw+1, 4*minBw+5)
+	if hi > 400_000_000_000 {
+		hi = 400_000_000_000
+	}
+	if p0.min > hi {
+		p0.min = 0
+	}
+	x.out = c.logU(p0.min, hi)
+	x.in = validIn(p0, x.out, ib, ir) + c.pick64(0, 0, 0, 1, 5)
+	x.h = c.pick32(840_000, uint32(c.rng.Intn(1_000_000)), 1)
+	lo := x.h + p0.rej + 1
+	x.eout = lo + uint32(c.rng.Intn(int(p0.maxcltv)+1))/2
+	x.ein = x.eout + p0.tld + uint32(c.rng.Intn(4))
+	ps := c.swPolicies(p0, x, n)
+
+	var hash [32]byte
+	c.rng.Read(hash[:])
+	atomic.StoreUint32(&sw.s.bestHeight, x.h)
+	desc := ""
+	for k, l := range links {
+		l.elig = c.rng.Intn(7) != 0
+		l.got = nil
+		c.apply(l.real, ps[k], ib, ir)
+		e := 0
+		if l.elig {
+			e = 1
+		}
+		desc += fmt.Sprintf(" %d %d %d %d %d %d %d %d %d", e, ps[k].min,
+			ps[k].max, ps[k].base, ps[k].rate, ps[k].tld, ps[k].rej,
+			ps[k].maxcltv, uint64(l.real.Bandwidth()))
+	}
+
+	mode, req := 0, c.rng.Intn(n)
+	unknown := false
+	pkt := &htlcPacket{
+		incomingChanID:  sw.in.ShortChanID(),
+		incomingHTLCID:  sw.htlc,
+		outgoingChanID:  links[req].ShortChanID(),
+		incomingAmount:  lnwire.MilliSatoshi(x.in),
+		amount:          lnwire.MilliSatoshi(x.out),
+		incomingTimeout: x.ein,
+		outgoingTimeout: x.eout,
+		inboundFee:      models.InboundFee{Base: ib, Rate: ir},
+		obfuscator:      NewMockObfuscator(),
+	}
+	sw.htlc++
+	htlc := &lnwire.UpdateAddHTLC{
+		PaymentHash: hash, Amount: lnwire.MilliSatoshi(x.out),
+		Expiry: x.eout,
+	}
+	pkt.htlc = htlc
+	switch r := c.rng.Intn(40); {
+	case r == 0:
+		// a channel id the switch does not know
+		unknown = true
+		pkt.outgoingChanID = lnwire.NewShortChanIDFromInt(999_999)
+	case r < 10 && !local:
+		mode, req = 1, -1
+		pkt.outgoingChanID = lnwire.ShortChannelID{}
+		pkt.outgoingHop = fn.NewRight[lnwire.ShortChannelID, [33]byte](
+			sw.keys[g],
+		)
+	}
+	if mode == 0 {
+		pkt.outgoingHop = fn.NewLeft[lnwire.ShortChannelID, [33]byte](
+			pkt.outgoingChanID,
+		)
+	}
+	if unknown {
+		n, req, desc = 0, -1, ""
+	}
+
+	res := "panic -1"
+	var ret ChannelLink
+	func() {
+		defer func() {
+			if r := recover(); r != nil {
+				res = "panic -1"
+			}
+		}()
+		if local {
+			pkt.incomingChanID = lnwire.ShortChannelID{}
+			l, le := sw.s.getLocalLink(pkt, htlc)
+			ret = l
+			res = c09Verdict(le)
+			return
+		}
+		err := sw.s.handlePacketAdd(pkt, htlc)
+		switch e := err.(type) {
+		case nil:
+			res = "accept -1"
+		case *LinkError:
+			res = c09Verdict(e)
+		default:
+			res = "error -1"
+		}
+	}()
+	chosen := -1
+	for k, l := range links {
+		if l.got != nil || (ret != nil && ret == ChannelLink(l)) {
+			if chosen >= 0 {
+				chosen = -2 // delivered to more than one link
+			} else {
+				chosen = k
+			}
+		}
+	}
+	if local {
+		c.pf("swl %d %d %d %d %d%s => %d %s", req, x.h, x.out, x.eout, n,
+			desc, chosen, res)
+		return
+	}
+	c.pf("sw %d %d %d %d %d %d %d %d %d %d%s => %d %s", mode, req, x.h,
+		x.in, x.out, x.ein, x.eout, ib, ir, n, desc, chosen, res)
+}
+
+func (c *c09) switchLevel(nEvals int) {
+	sw := c.setupSwitch()
+	for k := 0; k < nEvals; k++ {
+		if k%50 == 0 {
+			if k > 0 {
+				c.endCase()
+			}
+			c.startCase("switch")
+			for _, ls := range sw.peers {
+				for _, l := range ls {
+					if c.rng.Intn(3) == 0 {
+						c.shrinkBandwidth(l.real)
+					}
+				}
+			}
+		}
+		c.swEval(sw, k%8 == 7)
+	}
+	c.endCase()
 }
